@@ -49,23 +49,50 @@ def sym_symmetric(name, n):
 
 
 def prelude_statements(pkg):
-    """The statements of Graph.optimize that establish the fixed set (store to `.fixed`, assignment of
-    `_fixed_gradient_indices`), located by role; they are interpreted in isolation with the scenario's graph."""
+    """The statements of Graph.optimize before its main loop.  They are interpreted with the scenario's graph to establish the
+    fixed set exactly as the code does; statements that cannot be interpreted (timing, printing) are skipped unless the fixed-set
+    statements depend on them (backward slice on names)."""
     fn = pkg.method("Graph", "optimize")
-    out = []
+    pre = []
     for st in fn.body:
-        if isinstance(st, (ast.For, ast.While)):
+        if isinstance(st, (ast.For, ast.While)) and any(isinstance(x, ast.Call) and "_calc_chi2_gradient_hessian" in ast.unparse(x.func) for x in ast.walk(st)):
             break
-        hit = False
-        for node in ast.walk(st):
-            if isinstance(node, ast.Attribute) and isinstance(node.ctx, ast.Store) and node.attr in ("fixed", "_fixed_gradient_indices"):
-                hit = True
-        if hit:
-            out.append(st)
-    if not any(isinstance(n, ast.Attribute) and n.attr == "_fixed_gradient_indices" and isinstance(n.ctx, ast.Store)
-               for st in out for n in ast.walk(st)):
-        raise AnalysisError("anchor vanished: Graph.optimize no longer assigns self._fixed_gradient_indices before its loop")
-    return fn, out
+        pre.append(st)
+
+    def stores_fixed(st):
+        return any(isinstance(n, ast.Attribute) and isinstance(n.ctx, ast.Store) and n.attr in ("fixed", "_fixed_gradient_indices") for n in ast.walk(st)) or \
+            any(isinstance(n, ast.Call) and isinstance(n.func, ast.Attribute) and isinstance(n.func.value, ast.Attribute) and
+                n.func.value.attr == "_fixed_gradient_indices" for n in ast.walk(st))
+    if not any(stores_fixed(st) for st in pre):
+        raise AnalysisError("anchor vanished: Graph.optimize no longer establishes self._fixed_gradient_indices before its loop")
+    relevant = set()
+    needed = [False] * len(pre)
+    for _ in range(4):
+        for k in range(len(pre) - 1, -1, -1):
+            st = pre[k]
+            stored = {n.id for n in ast.walk(st) if isinstance(n, ast.Name) and isinstance(n.ctx, ast.Store)}
+            if stores_fixed(st) or (stored & relevant):
+                needed[k] = True
+                relevant |= {n.id for n in ast.walk(st) if isinstance(n, ast.Name) and isinstance(n.ctx, ast.Load)}
+    return fn, list(zip(pre, needed))
+
+
+def run_prelude(it, g, ffp):
+    from .interp import Unsupported
+    ofn, prelude = prelude_statements(it.pkg)
+    env = {"self": g, "fix_first_pose": ffp, "verbose": False, "tol": Poly.var("tol"), "max_iter": Poly.const(3), "__class__": None}
+    it.fn_stack.append(ofn)
+    try:
+        for st, needed in prelude:
+            if isinstance(st, ast.Expr) and isinstance(st.value, ast.Constant):
+                continue
+            try:
+                it.stmt(st, env)
+            except Unsupported:
+                if needed:
+                    raise
+    finally:
+        it.fn_stack.pop()
 
 
 def _build(it, scn):
@@ -90,12 +117,7 @@ def _build(it, scn):
 
 def _assemble_and_compare(it, g, verts, dims, spec, scn, label=""):
     pkg = it.pkg
-    ofn, prelude = prelude_statements(pkg)
-    it.fn_stack.append(ofn)
-    try:
-        it.block(prelude, {"self": g, "fix_first_pose": scn.ffp, "__class__": None})
-    finally:
-        it.fn_stack.pop()
+    run_prelude(it, g, scn.ffp)
     fixed = set(scn.fixed) | ({0} if scn.ffp else set())
     for k, v in enumerate(verts):
         if bool(v.fields.get("fixed")) != (k in fixed):
